@@ -30,6 +30,21 @@ func FQDN(domain string) string {
 	return dns.Fqdn(domain)
 }
 
+// LowerASCII converts ASCII letters in the domain to lower case and leaves
+// everything else untouched.
+//
+// A-labels are case-insensitive (RFC 5890 Section 2.3.2.1) but
+// idna.ToUnicode recognizes the ACE prefix only in lower case ("xn--", not
+// "XN--"), so domains should go through this before Punycode decoding.
+func LowerASCII(domain string) string {
+	return strings.Map(func(r rune) rune {
+		if r >= 'A' && r <= 'Z' {
+			return r + ('a' - 'A')
+		}
+		return r
+	}, domain)
+}
+
 // ForLookup converts the domain into a canonical form suitable for table
 // lookups and other comparisons.
 //
@@ -39,7 +54,7 @@ func FQDN(domain string) string {
 // domains are simply converted to local-case using strings.ToLower, but the
 // error is also returned.
 func ForLookup(domain string) (string, error) {
-	uDomain, err := idna.ToUnicode(domain)
+	uDomain, err := idna.ToUnicode(LowerASCII(domain))
 	if err != nil {
 		return strings.ToLower(domain), err
 	}
